@@ -1,5 +1,6 @@
 import SqlgrepModel.Lemmas.PrintLines
 import SqlgrepModel.Lemmas.PrintString
+import SqlgrepModel.Lemmas.PrintChars
 /-
 C17 — printed records faithfully carry the result rows in every output format.
 
@@ -91,6 +92,104 @@ theorem json_string_token_roundtrip (s rest : Bytes) :
 /-- the decimal rendering of any integer (all of i64 included) parses back to it -/
 theorem json_int_roundtrip (i : Int) : parseInt (renderInt i) = some i := parseInt_renderInt i
 
+/-! ## JSON records recover the row -/
+
+/-- Under distinct column names, the JSON record of a row — read by `readObject`, a reader for compact
+one-level JSON objects defined in `Lemmas/PrintJson.lean` — is a valid object whose keys are the
+column names in column order. (`OracleOk`: ryu renders a finite REAL as a number token.) -/
+theorem json_keys_in_order (o : RealOracle) (ho : OracleOk o) (cols : List Bytes) (row : List Value)
+    (hd : cols.Nodup) (hl : cols.length = row.length) :
+    (readObject (renderRecord o .json cols row)).map (fun kvs => kvs.map Prod.fst) = some cols := by
+  rw [readObject_record o ho cols row hd (Nat.le_of_eq hl)]
+  simp [jsonMembers_keys o cols row (Nat.le_of_eq hl)]
+
+/-- ... and the member values are, in order, the cell documents `Value::json_value` builds: the
+object read back is exactly `columns.zip (row.map jsonValue)`. -/
+theorem json_record_members (o : RealOracle) (ho : OracleOk o) (cols : List Bytes) (row : List Value)
+    (hd : cols.Nodup) (hl : cols.length = row.length) :
+    readObject (renderRecord o .json cols row) = some (cols.zip (row.map (jsonValue o))) := by
+  rw [readObject_record o ho cols row hd (Nat.le_of_eq hl)]
+  simp [jsonMembers, List.zip_map_right]
+
+/-- A cell document determines the cell: NULL → null, BOOLEAN, INT (the number token parses back to
+the same integer, all of i64 included), TEXT (the same bytes), arrays element-wise at any depth,
+TIMESTAMP / INTERVAL → the string of their text form (`jsonMeaning`). REAL is excluded here: its
+number token is the ryu oracle's (`json_real_is_oracle_token`). -/
+theorem json_cell_recovers_value (o : RealOracle) (v : Value) (h : noReal v = true) :
+    decodeCell (jsonValue o v) = some (jsonMeaning v) := decodeCell_jsonValue o v h
+
+/-- the record read back recovers the whole row (distinct column names, REAL-free row) -/
+theorem json_record_recovers_row (o : RealOracle) (ho : OracleOk o) (cols : List Bytes)
+    (row : List Value) (hd : cols.Nodup) (hl : cols.length = row.length)
+    (hnr : ∀ v ∈ row, noReal v = true) :
+    ∃ kvs, readObject (renderRecord o .json cols row) = some kvs
+      ∧ kvs.map Prod.fst = cols
+      ∧ kvs.map (fun kv => decodeCell kv.2) = row.map (fun v => some (jsonMeaning v)) := by
+  refine ⟨jsonMembers o cols row, readObject_record o ho cols row hd (Nat.le_of_eq hl),
+    jsonMembers_keys o cols row (Nat.le_of_eq hl), ?_⟩
+  simp only [jsonMembers, List.map_map]
+  have e : ((fun (kv : Bytes × Json) => decodeCell kv.2) ∘ fun (nv : Bytes × Value) => (nv.1, jsonValue o nv.2))
+      = fun nv => decodeCell (jsonValue o nv.2) := by funext nv; rfl
+  rw [e, zip_map_snd_take cols row (fun v => decodeCell (jsonValue o v)) (Nat.le_of_eq hl), hl,
+    List.take_length]
+  exact List.map_congr_left (fun v hv => decodeCell_jsonValue o v (hnr v hv))
+
+/-- REAL cells: a finite REAL is printed as the oracle's (ryu) number token, a non-finite one as `null` -/
+theorem json_real_is_oracle_token (o : RealOracle) (b : Nat) :
+    jsonValue o (.real b) = if isFinite b then .num (o.json b) else .null := by
+  simp only [jsonValue]
+
+/-- timestamps and intervals are printed as JSON strings of their text form -/
+theorem json_temporal_is_text_form (o : RealOracle) (d s f n : Int) :
+    jsonValue o (.timestamp d s f) = .str (displayValue o (.timestamp d s f))
+    ∧ jsonValue o (.interval n) = .str (displayValue o (.interval n)) := ⟨rfl, rfl⟩
+
+/-! ## CSV fields and text pairs, under the property's guard -/
+
+/-- CSV with a one-byte delimiter `d` that `Display` never writes by itself (`;` — the delimiter of
+`--format csv` —, tab, `|`, …): if no TEXT payload of the row (cells or array elements) contains the
+delimiter (and the `{:.2}` oracle does not produce it), splitting the record at the delimiter gives
+exactly the rendered cells in order — one field per column. Quotes and line breaks in TEXT do not even
+have to be excluded for this. -/
+theorem csv_field_count (o : RealOracle) (d : Nat) (cols : List Bytes) (row : List Value)
+    (hne : cols ≠ []) (hl : cols.length = row.length) (hd : ¬ Structural d)
+    (htexts : ∀ v ∈ row, ∀ s ∈ allTexts v, d ∉ s) (hreal : ∀ b, d ∉ o.fixed2 b) :
+    splitOn d (renderRecord o (.csv [d]) cols row) = row.map (displayValue o)
+    ∧ (splitOn d (renderRecord o (.csv [d]) cols row)).length = cols.length := by
+  have h := splitOn_csv_record o d cols row hne (Nat.le_of_eq hl)
+    (fun v hv => not_mem_displayValue o d v hd (htexts v hv) hreal)
+  rw [hl, List.take_length] at h
+  exact ⟨h, by rw [h, List.length_map, hl]⟩
+
+/-- the header has one field per column as well (column names free of the delimiter) -/
+theorem csv_header_field_count (d : Nat) (cols : List Bytes) (hne : cols ≠ []) (hn : ∀ n ∈ cols, d ∉ n) :
+    splitOn d (joinWith [d] cols) = cols := splitOn_joinWith d cols hne hn
+
+/-- text format: unless the lone-`input` rule applies, the record is the list of `name: value` pairs in
+column order, joined by `, ` (all rows, no guard) -/
+theorem text_record_is_pairs (o : RealOracle) (cols : List Bytes) (row : List Value)
+    (hlone : loneInput .text cols row = false) :
+    renderRecord o .text cols row
+      = joinWith [44, 32] ((cols.zip row).map fun nv => nv.1 ++ ([58, 32] ++ displayValue o nv.2)) := by
+  simp only [renderRecord, hlone, Bool.false_eq_true, if_false]
+
+/-- a lone `input` column prints just the value, without `input: ` -/
+theorem text_lone_input (o : RealOracle) (v : Value) :
+    renderRecord o .text [sInput] [v] = displayValue o v := by
+  simp [renderRecord, loneInput]
+
+/- Full statement (not proved): under the property's guard alone (TEXT payloads free of `,`, quotes and
+line breaks) a reader that is aware of `'…'` and `{…}` splits every text record into its `name: value`
+pairs. Proved part: when no *rendered cell* and no column name contains `,` (this additionally excludes
+arrays with two or more elements, whose rendering `{a, b}` contains `, ` itself), splitting at `,`
+yields the pairs in column order. -/
+theorem text_pairs_in_order_partial (o : RealOracle) (cols : List Bytes) (row : List Value)
+    (hlone : loneInput .text cols row = false) (hne : cols ≠ []) (hl : cols.length = row.length)
+    (hnames : ∀ n ∈ cols, 44 ∉ n) (hfree : ∀ v ∈ row, 44 ∉ displayValue o v) :
+    splitOn 44 (renderRecord o .text cols row)
+      = spaced ((cols.zip row).map fun nv => nv.1 ++ ([58, 32] ++ displayValue o nv.2)) :=
+  splitOn_text_record o cols row hlone hne (Nat.le_of_eq hl) hnames hfree
+
 /-! ## non-vacuity -/
 
 def o0 : RealOracle := { fixed2 := fun _ => [49, 46, 53, 48], json := fun _ => [49, 46, 53] }
@@ -110,5 +209,34 @@ example : jsonEscape [34, 92, 10, 1, 31, 127, 195, 169] =
 
 example : renderInt (-9223372036854775808) = [45, 57, 50, 50, 51, 51, 55, 50, 48, 51, 54, 56, 53, 52, 55, 55, 53, 56, 48, 56] := by
   simp [renderInt, natDigits]
+
+example : OracleOk o0 := by
+  intro b _; show (Json.num [49, 46, 53]).ok = true; decide
+
+-- the guards are satisfiable: `;`, tab and `|` are never written by `Display` itself
+example : ¬ Structural 59 ∧ ¬ Structural 9 ∧ ¬ Structural 124 := by decide
+
+-- a row satisfying every hypothesis of `json_record_recovers_row`, and what is read back
+example : readObject (renderRecord o0 .json [[97], [34, 98]]
+      [.text [104, 34, 10, 195, 169], .array .bool [.bool true, .null, .array .text []]])
+    = some [([97], .str [104, 34, 10, 195, 169]), ([34, 98], .arr [.bool true, .null, .arr []])] :=
+  json_record_members o0 (by intro b _; show (Json.num [49, 46, 53]).ok = true; decide) _ _ (by decide) rfl
+
+example : [[97], [34, 98]].Nodup ∧ noReal (.array .bool [.bool true, .null, .array .text []]) = true := by
+  decide
+
+-- a row satisfying the hypotheses of `csv_field_count` for `;` with quotes and commas in its TEXT
+example : splitOn 59 (renderRecord o0 (.csv [59]) [[97], [98], [99]]
+      [.text [39, 44, 10], .array .text [.text [120], .null], .real 0])
+    = [[39, 39, 44, 10, 39], [123, 39, 120, 39, 44, 32, 78, 85, 76, 76, 125], [49, 46, 53, 48]] := by decide
+
+example : ∀ v ∈ [Value.text [39, 44, 10], .array .text [.text [120], .null], .real 0],
+    ∀ s ∈ allTexts v, 59 ∉ s := by decide
+
+-- `text_pairs_in_order_partial` on a two-column row
+example : splitOn 44 (renderRecord o0 .text [[97], [98]] [.bool true, .text [120]])
+    = [[97, 58, 32, 116, 114, 117, 101], [32, 98, 58, 32, 39, 120, 39]] := by decide
+
+example : loneInput .text [[97], [98]] [.bool true, .text [120]] = false := by decide
 
 end Sqlgrep.Props.C17
